@@ -102,39 +102,43 @@ func newTemplate(set *TemplateSet, name string, isTplString bool, tpl []byte) (*
 }
 
 func (tpl *Template) newContextForExecution(context Context) (*Template, *ExecutionContext, error) {
-	tpl.blockOptionsMutex.Lock()
-	lstrip := tpl.Options.LStripBlocks && !tpl.lstripBlocksDone
-	trim := tpl.Options.TrimBlocks && !tpl.trimBlocksDone
-	if trim || lstrip {
-		// Issue #94 https://github.com/flosch/pongo2/issues/94
-		// If an application configures pongo2 template to trim_blocks,
-		// the first newline after a template tag is removed automatically (like in PHP).
-		prev := &Token{
-			Typ: TokenHTML,
-			Val: "\n",
-		}
-
-		for _, t := range tpl.tokens {
-			if lstrip {
-				if prev.Typ == TokenHTML && t.Typ != TokenHTML && t.Val == "{%" {
-					prev.Val = strings.TrimRight(prev.Val, "\t ")
-				}
+	// The options of the executed template hold for the whole document, that is for the text of
+	// the templates it extends as well (each of them is rewritten at most once, under its own mutex).
+	for part := tpl; part != nil; part = part.parent {
+		part.blockOptionsMutex.Lock()
+		lstrip := tpl.Options.LStripBlocks && !part.lstripBlocksDone
+		trim := tpl.Options.TrimBlocks && !part.trimBlocksDone
+		if trim || lstrip {
+			// Issue #94 https://github.com/flosch/pongo2/issues/94
+			// If an application configures pongo2 template to trim_blocks,
+			// the first newline after a template tag is removed automatically (like in PHP).
+			prev := &Token{
+				Typ: TokenHTML,
+				Val: "\n",
 			}
 
-			if trim {
-				if prev.Typ != TokenHTML && t.Typ == TokenHTML && prev.Val == "%}" {
-					if len(t.Val) > 0 && t.Val[0] == '\n' {
-						t.Val = t.Val[1:len(t.Val)]
+			for _, t := range part.tokens {
+				if lstrip {
+					if prev.Typ == TokenHTML && t.Typ != TokenHTML && t.Val == "{%" {
+						prev.Val = strings.TrimRight(prev.Val, "\t ")
 					}
 				}
-			}
 
-			prev = t
+				if trim {
+					if prev.Typ != TokenHTML && t.Typ == TokenHTML && prev.Val == "%}" {
+						if len(t.Val) > 0 && t.Val[0] == '\n' {
+							t.Val = t.Val[1:len(t.Val)]
+						}
+					}
+				}
+
+				prev = t
+			}
+			part.lstripBlocksDone = part.lstripBlocksDone || lstrip
+			part.trimBlocksDone = part.trimBlocksDone || trim
 		}
-		tpl.lstripBlocksDone = tpl.lstripBlocksDone || lstrip
-		tpl.trimBlocksDone = tpl.trimBlocksDone || trim
+		part.blockOptionsMutex.Unlock()
 	}
-	tpl.blockOptionsMutex.Unlock()
 
 	// Determine the parent to be executed (for template inheritance)
 	parent := tpl
